@@ -35,7 +35,8 @@ AllDev == {"AESKeepsPadding",            \* decrypt_aes128/256 return the PKCS#7
            "NonLatin1PasswordError",     \* R<=4: password.encode("latin1") raises UnicodeEncodeError
            "SaslprepErrorEscapes",       \* R6: saslprep raises PDFValueError on prohibited characters
            "SaslprepEmptyIndexError",    \* R6: saslprep indexes data[0] after mapping everything to nothing
-           "ImplicitIdentityKeyError"}   \* V4 without StmF/StrF (default Identity): KeyError 'StmF'
+           "ImplicitIdentityKeyError",   \* V4 without StmF/StrF (default Identity): KeyError 'StmF'
+           "TruncateCharsNotBytes"}      \* R5/R6: password cut to 127 characters before encoding instead of 127 bytes after
 ASSUME \A D \in DevSets : D \subseteq AllDev
 CodedDev == UNION DevSets        \* the largest set explored: terminal states of that machine are printed for the replay
 
@@ -57,25 +58,51 @@ EncId    == 16
 (*   different tail, M (131 bytes), M2 = M's first 127 bytes + different   *)
 (*   tail, n Latin-1 non-ASCII, n2 = NFKC-equivalent spelling of n (not    *)
 (*   Latin-1), w wrong ASCII, x wrong non-Latin-1, c contains a character  *)
-(*   SASLprep prohibits, s = soft hyphen (SASLprep maps it to nothing).    *)
+(*   SASLprep prohibits, s = soft hyphen (SASLprep maps it to nothing),    *)
+(*   N N2 P long AND non-ASCII, B31 B32 B33 at the 32-byte boundary (see   *)
+(*   PwInfo).  Truncation is defined on BYTES of the encoded string.       *)
 (* Two passwords are the same password for a revision iff their prepared   *)
 (* forms are equal; "BAD" = no prepared form exists (it cannot be right).  *)
 (***************************************************************************)
+\* What matters about a password class: its length in characters, in Latin-1 bytes (-1: not encodable), in UTF-8
+\* bytes, and the identity of its first 32 Latin-1 bytes / first 127 UTF-8 bytes (classes that share them agree).
+\*   N  = "a" + 70 x e-acute: 71 characters, 141 UTF-8 bytes (more than 127 BYTES, fewer than 127 CHARACTERS)
+\*   N2 = the first 127 UTF-8 bytes of N followed by a different tail
+\*   P  = 130 x e-acute: more than 127 characters, 260 UTF-8 bytes
+\*   B31, B32, B33: ASCII of exactly 31, 32, 33 bytes, each a prefix of the next
+PwInfo(p) ==
+  CASE p = "e"  -> [ch |-> 0,   l1 |-> 0,   u8 |-> 0,   p32 |-> "-",   p127 |-> "-"]
+    [] p = "L"  -> [ch |-> 41,  l1 |-> 41,  u8 |-> 41,  p32 |-> "L32", p127 |-> "-"]
+    [] p = "L2" -> [ch |-> 41,  l1 |-> 41,  u8 |-> 41,  p32 |-> "L32", p127 |-> "-"]
+    [] p = "M"  -> [ch |-> 131, l1 |-> 131, u8 |-> 131, p32 |-> "M32", p127 |-> "M127"]
+    [] p = "M2" -> [ch |-> 131, l1 |-> 131, u8 |-> 131, p32 |-> "M32", p127 |-> "M127"]
+    [] p = "n"  -> [ch |-> 8,   l1 |-> 8,   u8 |-> 10,  p32 |-> "-",   p127 |-> "-"]
+    [] p = "n2" -> [ch |-> 10,  l1 |-> -1,  u8 |-> 12,  p32 |-> "-",   p127 |-> "-"]
+    [] p = "x"  -> [ch |-> 6,   l1 |-> -1,  u8 |-> 12,  p32 |-> "-",   p127 |-> "-"]
+    [] p = "s"  -> [ch |-> 1,   l1 |-> 1,   u8 |-> 2,   p32 |-> "-",   p127 |-> "-"]
+    [] p = "N"  -> [ch |-> 71,  l1 |-> 71,  u8 |-> 141, p32 |-> "N32", p127 |-> "N127"]
+    [] p = "N2" -> [ch |-> 74,  l1 |-> 74,  u8 |-> 147, p32 |-> "N32", p127 |-> "N127"]
+    [] p = "P"  -> [ch |-> 130, l1 |-> 130, u8 |-> 260, p32 |-> "P32", p127 |-> "P127"]
+    [] p = "B31" -> [ch |-> 31, l1 |-> 31,  u8 |-> 31,  p32 |-> "-",   p127 |-> "-"]
+    [] p = "B32" -> [ch |-> 32, l1 |-> 32,  u8 |-> 32,  p32 |-> "B32", p127 |-> "-"]
+    [] p = "B33" -> [ch |-> 33, l1 |-> 33,  u8 |-> 33,  p32 |-> "B32", p127 |-> "-"]
+    [] OTHER    -> [ch |-> 5,   l1 |-> 5,   u8 |-> 5,   p32 |-> "-",   p127 |-> "-"]      \* a b w c: short ASCII
+
+\* RFC 4013 on the classes: n2 normalises to n, s maps to nothing, c is prohibited
+Sasl(p) == CASE p = "n2" -> "n" [] p = "s" -> "e" [] p = "c" -> "BAD" [] OTHER -> p
+
 Prep(R, p) ==
-  IF R <= 4 THEN          \* PDFDocEncoding, padded/truncated to 32 bytes (algorithm 2 step a)
-    CASE p \in {"L", "L2"} -> "L32"
-      [] p \in {"M", "M2"} -> "M32"
-      [] p \in {"n2", "x"} -> "BAD"
-      [] OTHER -> p
-  ELSE IF R = 5 THEN      \* UTF-8, first 127 bytes
-    CASE p \in {"M", "M2"} -> "M127"
-      [] OTHER -> p
-  ELSE                    \* SASLprep, UTF-8, first 127 bytes
-    CASE p \in {"M", "M2"} -> "M127"
-      [] p = "n2" -> "n"
-      [] p = "s" -> "e"
-      [] p = "c" -> "BAD"
-      [] OTHER -> p
+  IF R <= 4 THEN          \* PDFDocEncoding; the first 32 BYTES count (algorithm 2 step a: pad or truncate to 32)
+    IF PwInfo(p).l1 < 0 THEN "BAD" ELSE IF PwInfo(p).l1 >= 32 THEN PwInfo(p).p32 ELSE p
+  ELSE                    \* (R6: SASLprep first) UTF-8; the first 127 BYTES of the UTF-8 string count
+    LET q == IF R = 6 THEN Sasl(p) ELSE p
+    IN IF q = "BAD" THEN "BAD" ELSE IF PwInfo(q).u8 > 127 THEN PwInfo(q).p127 ELSE q
+
+\* deviation TruncateCharsNotBytes: str[:127].encode() - cut after 127 CHARACTERS, then encode
+CharCut(R, p) == LET q == IF R = 6 THEN Sasl(p) ELSE p
+                 IN IF R >= 5 /\ q # "BAD" /\ PwInfo(q).u8 > 127 /\ PwInfo(q).u8 # PwInfo(q).ch
+                    THEN "charcut:" \o q        \* a byte string the writer never hashed
+                    ELSE Prep(R, p)
 
 Owner == IF opw = "same" THEN upw ELSE opw
 
@@ -179,9 +206,11 @@ AEncodePassword ==
      THEN Fail("PDFValueError", {"SaslprepErrorEscapes"})
      ELSE IF cfg.R = 6 /\ tried = "s" /\ "SaslprepEmptyIndexError" \in Dev
      THEN Fail("IndexError", {"SaslprepEmptyIndexError"})
-     ELSE /\ pwb' = p
-          /\ phase' = IF p = "BAD" THEN "reject" ELSE IF handler = "V5" THEN "auth_owner5" ELSE "auth_user"
-          /\ UNCHANGED <<cfg, Dev, upw, opw, tried, item, handler, key, outcome, perms, cur, val, calls, blame>>
+     ELSE LET q == IF "TruncateCharsNotBytes" \in Dev THEN CharCut(cfg.R, tried) ELSE p IN
+          /\ pwb' = q
+          /\ blame' = IF q # p THEN blame \cup {"TruncateCharsNotBytes"} ELSE blame
+          /\ phase' = IF q = "BAD" THEN "reject" ELSE IF handler = "V5" THEN "auth_owner5" ELSE "auth_user"
+          /\ UNCHANGED <<cfg, Dev, upw, opw, tried, item, handler, key, outcome, perms, cur, val, calls>>
 
 \* what the reader reads back from the Encrypt dictionary
 RdNB == IF cfg.R = 2 THEN 5 ELSE (IF handler = "V4" THEN 128 ELSE cfg.keylen) \div 8   \* V4.init_params: length = 128
@@ -334,6 +363,7 @@ AuthExcuse ==
   \/ blame = {"SaslprepErrorEscapes"} /\ outcome = "PDFValueError" /\ ~RefOpens
   \/ blame = {"SaslprepEmptyIndexError"} /\ outcome = "IndexError"
   \/ blame = {"ImplicitIdentityKeyError"} /\ outcome = "KeyError"
+  \/ blame = {"TruncateCharsNotBytes"} /\ outcome = "PDFPasswordIncorrect"
 ItemExcuse ==
   \/ blame = {"AESKeepsPadding"} /\ val.enc = <<>> /\ val.spur = 0 /\ val.pad
   \/ blame = {"StreamDictNotDeciphered"} /\ LayerCount(val) = 1 /\ val.spur = 0 /\ ~val.pad
